@@ -1,4 +1,5 @@
 import HapVerif.Model.C16
+import HapVerif.Model.C16Callers
 import HapVerif.Drv.Common
 namespace HapVerif.C16
 open HapVerif.Drv
@@ -11,7 +12,54 @@ def parseCluster (s : String) : Option Cluster :=
 def showOut (o : List (Option Int)) : String :=
   ",".intercalate (o.map fun | some w => toString w | none => "u")
 
-/-- `rebalance <initial> <W:L,...>` with impl output `<w,...>` (ints) -/
+/-! ### the callers (grammar: harness/cmd/hv/c16callers.go) -/
+
+def parseGwRef (s : String) : Option GwRef :=
+  let pw := fun (w : String) => if w = "-" then some none else w.toInt?.map some
+  match s.splitOn ":" with
+  | [w, n] => do pure ⟨← pw w, ← n.toNat?, false⟩
+  | [w, n, sk] => if sk ∈ ["p", "s", "q", "e"] then do pure ⟨← pw w, ← n.toNat?, true⟩ else none
+  | _ => none
+
+/-- `none` | per ref `-` or `w.w.w`, comma separated -/
+def parseGwOut (s : String) : Option (Option (List (List Int))) :=
+  if s = "none" then some none else
+  ((s.splitOn ",").mapM fun it => if it = "-" then some [] else (it.splitOn ".").mapM String.toInt?).map some
+
+def showGwOut : Option (List (List Int)) → String
+  | none => "none"
+  | some per => if per.isEmpty then "-" else
+    ",".intercalate (per.map fun ws => if ws.isEmpty then "-" else ".".intercalate (ws.map toString))
+
+def unesc (s : String) : String := s.replace "%20" " "
+
+def parseLabels (s : String) : Option (List (String × String)) :=
+  if s = "0" then some [] else do
+    let kvs ← (s.splitOn "+").mapM fun kv => match kv.splitOn "=" with
+      | [k, v] => some (k, v)
+      | _ => none
+    -- a pod's labels are a map: a key occurs once
+    if (kvs.map (·.1)).eraseDups.length = kvs.length then some kvs else none
+
+def parseBgEp (s : String) : Option BgEp :=
+  let (st, pod) := splitOn1 s ":"
+  if st ≠ "r" ∧ st ≠ "d" then none else
+  if pod = "n" ∨ pod = "m" then some ⟨st = "d", none⟩ else
+  (parseLabels pod).map fun ls => ⟨st = "d", some ls⟩
+
+def parseBgIn (mode initial ann eps : String) : Option BgIn := do
+  let eps ← parseList parseBgEp eps
+  let ann ← if ann = "-" then some none
+    else if ann.startsWith "b:" ∨ ann.startsWith "d:" ∨ ann.startsWith "e:" then some (some (unesc (ann.drop 2).toString))
+    else none
+  pure { mode := if mode = "-" then "" else unesc mode,
+         initial := if initial = "-" then 1 else (parseGoInt (unesc initial)).getD 0,
+         ann := ann, eps := eps }
+
+def showInts (l : List Int) : String := if l.isEmpty then "-" else ",".intercalate (l.map toString)
+
+/-- `rebalance <initial> <W:L,...>` with impl output `<w,...>` (ints);
+`gw <kind> <refs>` and `bg <mode> <initial> <ann> <eps>`: the callers -/
 def handle (args : List String) (impl : String) : Verdict :=
   match args with
   | ["rebalance", ini, cs] =>
@@ -28,6 +76,20 @@ def handle (args : List String) (impl : String) : Verdict :=
       let m := clampWeight w
       { model := toString m, agree := m = o, oracle := if 0 ≤ o ∧ o ≤ 256 then none else some "range" }
     | _, _ => bad "parse"
+  | ["gw", _, rs] =>
+    match parseList parseGwRef rs, parseGwOut impl with
+    | some refs, some obs =>
+      let m := gwRun refs
+      { model := showGwOut m, agree := m = obs, oracle := gwOracle refs obs,
+        trivial := match m with | none => true | some per => per.all (·.isEmpty) }
+    | _, _ => if impl = "PANIC" then { model := "-", agree := false, oracle := some "panic-gw" } else bad "parse"
+  | ["bg", mode, ini, ann, eps] =>
+    match parseBgIn mode ini ann eps, parseList String.toInt? impl with
+    | some i, some obs =>
+      let m := bgRun i
+      { model := showInts m, agree := m = obs, oracle := bgOracle i obs,
+        trivial := (bgEntries i.ann).isNone || i.eps.isEmpty }
+    | _, _ => if impl = "PANIC" then { model := "-", agree := false, oracle := some "panic-bg" } else bad "parse"
   | _ => bad "C16"
 
 end HapVerif.C16
